@@ -20,15 +20,18 @@ def ShiftOv (d : Int) (o o' : Ov K V) : Prop :=
   o' = { o with gas := { o.gas with consumed := o.gas.consumed + d } }
 
 /-- a program whose result, writes and volatile effects do not depend on the level of the gas
-    counter (it may advance it, by the same amount either way) -/
+    counter (it may advance it, by the same amount either way), AT ANY LEVEL, the limit included.
+    Only programs that never touch a metered store meet this when the limit is finite; the notion
+    real handlers meet, and the one the theorems of C06 use, is `RoomShiftInv` below. -/
 def GasShiftInv (cfg : Cfg K V) (p : Prog K V C E α) : Prop :=
   ∀ (d : Int) (s s' : St K V) (m : Vol C V) (e : E), ShiftSt d s s' →
     (p.run cfg s' m e).1 = (p.run cfg s m e).1 ∧
     ShiftSt d (p.run cfg s m e).2.1 (p.run cfg s' m e).2.1 ∧
     (p.run cfg s' m e).2.2 = (p.run cfg s m e).2.2
 
-/-- the handlers of every transaction are gas-shift invariant; the fee step is handed the start
-    level and must be invariant when both are shifted together -/
+/-- the handlers of every transaction are gas-shift invariant (at any level: see the remark on
+    `GasShiftInv`; superseded by `RoomBlind`); the fee step is handed the start level and must be
+    invariant when both are shifted together -/
 structure GasBlind (cfg : Cfg K V) (hs : Handlers K V C E T H D) : Prop where
   validate : ∀ tx, GasShiftInv cfg (hs.validate tx)
   deliver : ∀ tx, GasShiftInv cfg (hs.deliver tx)
@@ -145,6 +148,91 @@ def ShiftNode (d : Int) (n n' : Node K V C T H D) : Prop :=
   n'.tree = n.tree ∧ ShiftOv d n.dlv n'.dlv ∧ n'.chk = n.chk ∧ n'.vol = n.vol ∧ n'.idx = n.idx ∧
   n'.height = n.height ∧ n'.closed = n.closed
 
+/-! ### gas-shift invariance *while the meter has room*
+
+  `GasShiftInv` / `GasBlind` above quantify over ALL pairs of states that differ in the level of
+  the gas counter, including levels at or beyond the limit. Whether a metered store access is
+  served depends on the level there, so no program that touches a metered store satisfies them
+  when the limit is finite: they describe unmetered states (and programs without store access)
+  only. The notions below are the ones real handlers satisfy: a program is compared on two states
+  of which the one with the HIGHER level still ends below the limit. All costs being non-negative,
+  no access is refused in either run then. -/
+
+/-- the meter has not reached its limit: the next strict consume is served
+    (`gasOut g = false`) -/
+def hasRoom (g : Gas) : Prop := g.consumed < g.limit
+
+instance (g : Gas) : Decidable (hasRoom g) := by unfold hasRoom; exact inferInstance
+
+/-- the program never reads the level of the gas counter (no `.gas` node) -/
+def Prog.NoGasRead : Prog K V C E α → Prop
+  | .ret _ | .fail => True
+  | .get _ κ => ∀ x, (κ x).NoGasRead
+  | .has _ κ => ∀ x, (κ x).NoGasRead
+  | .set _ _ κ => ∀ x, (κ x).NoGasRead
+  | .del _ κ => κ.NoGasRead
+  | .iter _ _ _ κ => ∀ x, (κ x).NoGasRead
+  | .iterAll _ _ _ κ => ∀ x, (κ x).NoGasRead
+  | .getv _ _ κ => ∀ x, (κ x).NoGasRead
+  | .gas _ => False
+  | .burn _ κ => κ.NoGasRead
+  | .vget _ κ => ∀ x, (κ x).NoGasRead
+  | .vset _ _ κ => κ.NoGasRead
+  | .env κ => ∀ x, (κ x).NoGasRead
+
+/-- every `.burn` of the program charges a non-negative amount (all other charges are
+    non-negative by construction: flat costs and `cfg.vlen`-proportional costs of layer K) -/
+def Prog.BurnNonneg : Prog K V C E α → Prop
+  | .ret _ | .fail => True
+  | .get _ κ => ∀ x, (κ x).BurnNonneg
+  | .has _ κ => ∀ x, (κ x).BurnNonneg
+  | .set _ _ κ => ∀ x, (κ x).BurnNonneg
+  | .del _ κ => κ.BurnNonneg
+  | .iter _ _ _ κ => ∀ x, (κ x).BurnNonneg
+  | .iterAll _ _ _ κ => ∀ x, (κ x).BurnNonneg
+  | .getv _ _ κ => ∀ x, (κ x).BurnNonneg
+  | .gas κ => ∀ x, (κ x).BurnNonneg
+  | .burn a κ => 0 ≤ a ∧ κ.BurnNonneg
+  | .vget _ κ => ∀ x, (κ x).BurnNonneg
+  | .vset _ _ κ => κ.BurnNonneg
+  | .env κ => ∀ x, (κ x).BurnNonneg
+
+/-- the program never lowers the gas counter -/
+def GasMono (cfg : Cfg K V) (p : Prog K V C E α) : Prop :=
+  ∀ (s : St K V) (m : Vol C V) (e : E), s.gas.consumed ≤ (p.run cfg s m e).2.1.gas.consumed
+
+/-- gas-shift invariance with room: run from two states that differ only in the level of the gas
+    counter, the higher of which (`s'`, by `d ≥ 0`) still ends below the limit, the program gives
+    the same result, the same writes (the end states differ by the same `d`) and the same
+    volatile effects -/
+def RoomShiftInv (cfg : Cfg K V) (p : Prog K V C E α) : Prop :=
+  ∀ (d : Int) (s s' : St K V) (m : Vol C V) (e : E), 0 ≤ d → ShiftSt d s s' →
+    hasRoom (p.run cfg s' m e).2.1.gas →
+    (p.run cfg s' m e).1 = (p.run cfg s m e).1 ∧
+    ShiftSt d (p.run cfg s m e).2.1 (p.run cfg s' m e).2.1 ∧
+    (p.run cfg s' m e).2.2 = (p.run cfg s m e).2.2
+
+/-- what the removal theorems of C06 ask of the deliver-path programs: Validate and
+    ProcessDeliver are gas-shift invariant with room; the fee step, which is handed the start
+    level, is so when both are shifted together; none of them lowers the counter.
+    `RoomBlind.of_syntactic` (Shell/LemmasGas) derives all of this from the syntax of the
+    programs: no `.gas` node outside the fee step, no negative `.burn`. -/
+structure RoomBlind (cfg : Cfg K V) (hs : Handlers K V C E T H D) : Prop where
+  validate : ∀ tx, RoomShiftInv cfg (hs.validate tx)
+  deliver : ∀ tx, RoomShiftInv cfg (hs.deliver tx)
+  fee : ∀ tx (g d : Int) (s s' : St K V) (m : Vol C V) (e : E), 0 ≤ d → ShiftSt d s s' →
+    hasRoom ((hs.fee tx (g + d)).run cfg s' m e).2.1.gas →
+    ((hs.fee tx (g + d)).run cfg s' m e).1 = ((hs.fee tx g).run cfg s m e).1 ∧
+    ShiftSt d ((hs.fee tx g).run cfg s m e).2.1 ((hs.fee tx (g + d)).run cfg s' m e).2.1 ∧
+    ((hs.fee tx (g + d)).run cfg s' m e).2.2 = ((hs.fee tx g).run cfg s m e).2.2
+  monoV : ∀ tx, GasMono cfg (hs.validate tx)
+  monoD : ∀ tx, GasMono cfg (hs.deliver tx)
+  monoF : ∀ tx g, GasMono cfg (hs.fee tx g)
+
+/-- end-of-block hooks are gas-shift invariant with room and never lower the counter -/
+def HooksRoomBlind (cfg : Cfg K V) (hs : Handlers K V C E T H D) : Prop :=
+  ∀ h, ∀ hk ∈ hs.endb h, RoomShiftInv cfg hk.2 ∧ GasMono cfg hk.2
+
 /-- the transactions of a block that did not fail -/
 def survivors (txs : List T) (rs : List (TxRes D)) : List T :=
   ((txs.zip rs).filter (fun p => p.2.ok)).map (·.1)
@@ -155,6 +243,12 @@ def midBlock (cfg : Cfg K V) (hs : Handlers K V C E T H D) (e : E) (n : Node K V
     (txs : List T) (k : Nat) (ended : Bool) : Node K V C T H D :=
   let n1 := (deliverAll cfg hs e (beginBlock cfg hs e n) (txs.take k)).1
   if ended then endBlock cfg hs e n1 else n1
+
+/-- the gas meter of the deliver state when the block `txs` has been delivered and EndBlock has
+    run (just before Commit) -/
+def blockEndGas (cfg : Cfg K V) (hs : Handlers K V C E T H D) (e : E) (n : Node K V C T H D)
+    (txs : List T) : Gas :=
+  (endBlock cfg hs e (deliverAll cfg hs e (beginBlock cfg hs e n) txs).1).dlv.gas
 
 /-- start-up code recomputes volatile memory from the persisted tree, and the application keeps
     it that way at every block boundary ("derived" cells of DESIGN §6 C08) -/
